@@ -36,6 +36,7 @@ type Env struct {
 	cur   *State // the non-old state while translating inside old(...)
 	loopHead *ssa.BasicBlock // loop header for $i / $visited when `at` is not the header
 	atStart  bool            // evaluation point is the start of block `at` (loop head)
+	lax      bool            // postconditions: a local not defined on this path is an arbitrary value
 }
 
 type transErr string
@@ -419,6 +420,19 @@ func (e *Env) ident(name string) TV {
 	if e.pkg != nil {
 		if o := e.pkg.Scope().Lookup(name); o != nil {
 			return e.object(o)
+		}
+	}
+	if e.lax && e.fr != nil {
+		// a local variable of the function that has no value at this return statement: the
+		// clause has to hold for every value (it normally sits under a guard that is false here)
+		if ty := e.fr.localType(name); ty != nil {
+			key := "lax:" + name
+			if tv, ok := e.bind[key]; ok {
+				return tv
+			}
+			tv := TV{T: c.fresh("undef_"+sanitize(name), c.sortOf(ty)), Ty: ty}
+			e.bind[key] = tv
+			return tv
 		}
 	}
 	tfail("unknown identifier %q", name)
